@@ -290,6 +290,12 @@ func TestVerifC10(t *testing.T) {
 	fsm2 := &FSM{}
 	first, _ := n.logStore.FirstIndex()
 	lastIdx, _ := n.logStore.LastIndex()
+	if first > 1 {
+		// raft dropped the prefix of its log after a snapshot (more than 10240 trailing entries):
+		// a replica cannot be built from the log alone any more
+		rep.Obs("replica.skipped-log-prefix-compacted", 1)
+		return
+	}
 	it := n.logStore.GetBulkIterator(first, lastIdx+1)
 	for it.Next() {
 		l, err := raftlog.FromBytes(it.Value())
